@@ -1,10 +1,10 @@
 package main
 
 import (
-	"errors"
-	"io"
 	"bytes"
+	"errors"
 	"fmt"
+	"io"
 	"os"
 	"os/exec"
 	"runtime"
